@@ -202,7 +202,7 @@ impl G<'_> {
     pub fn statement(&mut self) -> (String, UStmt) {
         let x = vec!["x".to_string()];
         let none: Vec<String> = vec![];
-        let pick = self.rng.below(30);
+        let pick = self.rng.below(34);
         let mut s = UStmt { prefix: vec![], updates: vec![], ret_count: self.rng.chance(1, 4) };
         let fam: &str;
         match pick {
@@ -433,6 +433,56 @@ impl G<'_> {
                         UClause::Create(vec![CPath { nodes: vec![Self::bound("n"), m], rels: vec![r] }])
                     }
                 });
+            }
+            30 | 31 => {
+                // the same key written more than once by one statement, nulls included: the last
+                // write wins, whether or not the key existed when the statement started
+                fam = "set-from-unwind-with-nulls";
+                let mut items: Vec<Expr> = (0..1 + self.rng.below(3)).map(|_| if self.rng.chance(1, 3) { Expr::Lit(V::Null) } else { Expr::Lit(V::Int(self.rng.range(1, 9))) }).collect();
+                if self.rng.chance(1, 2) {
+                    items.push(Expr::Lit(V::Null));
+                }
+                let list = if self.rng.chance(1, 3) {
+                    let vals: Vec<V> = items.iter().map(|e| if let Expr::Lit(v) = e { v.clone() } else { V::Null }).collect();
+                    self.param(V::List(vals))
+                } else {
+                    Expr::ListLit(items)
+                };
+                s.prefix.push(Clause::Unwind { expr: list, var: "x".into() });
+                let key = self.rng.pick(&["w", "k", "fresh"]).to_string();
+                if self.rng.chance(1, 4) {
+                    s.prefix.push(self.match_rel());
+                    s.updates.push(UClause::Set(vec![SetItem::Prop("r".into(), key, Expr::Var("x".into()))]));
+                } else {
+                    s.prefix.push(self.match_node("n"));
+                    s.updates.push(UClause::Set(vec![SetItem::Prop("n".into(), key, Expr::Var("x".into()))]));
+                }
+            }
+            32 | 33 => {
+                fam = "same-key-written-twice";
+                s.prefix.push(self.match_node("n"));
+                let key = self.rng.pick(&["w", "k", "fresh"]).to_string();
+                let v = |g: &mut Self| if g.rng.chance(1, 2) { Expr::Lit(V::Null) } else { Expr::Lit(V::Int(g.rng.range(1, 9))) };
+                let (a, b) = (v(self), v(self));
+                match self.rng.below(5) {
+                    0 => {
+                        s.updates.push(UClause::Set(vec![SetItem::Prop("n".into(), key.clone(), a)]));
+                        s.updates.push(UClause::Set(vec![SetItem::Prop("n".into(), key, b)]));
+                    }
+                    1 => s.updates.push(UClause::Set(vec![SetItem::Prop("n".into(), key.clone(), a), SetItem::Prop("n".into(), key, b)])),
+                    2 => {
+                        s.updates.push(UClause::Set(vec![SetItem::MapMerge("n".into(), vec![(key.clone(), a)])]));
+                        s.updates.push(UClause::Set(vec![SetItem::Prop("n".into(), key, b)]));
+                    }
+                    3 => {
+                        s.updates.push(UClause::Remove(vec![RemoveItem::Prop("n".into(), key.clone())]));
+                        s.updates.push(UClause::Set(vec![SetItem::Prop("n".into(), key, b)]));
+                    }
+                    _ => {
+                        s.updates.push(UClause::Set(vec![SetItem::Prop("n".into(), key.clone(), a)]));
+                        s.updates.push(UClause::Remove(vec![RemoveItem::Prop("n".into(), key)]));
+                    }
+                }
             }
             28 => {
                 fam = "several-clauses";
